@@ -183,7 +183,7 @@ fn run_norm(t: &[&str]) -> String {
                 _ => DataType::FixedSizeBinary(w as i32),
             };
             let n = buf.len() / w;
-            let child = make_array(ArrayData::builder(dt).len(n).add_buffer(Buffer::from(buf)).build().unwrap());
+            let child = make_array(ArrayData::builder(dt).len(n).add_buffer(Buffer::from(buf.as_slice())).build().unwrap());
             if var & 1 == 0 {
                 hex(&body_buffers(child.slice(off, len))[1])
             } else {
@@ -393,7 +393,7 @@ fn run_dict(t: &[&str]) -> String {
     let wire_schema = {
         let m0 = &msgs[0];
         let msg = arrow_ipc::root_as_message(&bytes[start + m0.meta.0..start + m0.meta.0 + m0.meta.1]).unwrap();
-        arrow_ipc::convert::fb_to_schema(msg.header_as_schema().unwrap())
+        arrow_ipc::convert::try_fb_to_schema(msg.header_as_schema().unwrap()).unwrap()
     };
     for m in &msgs {
         let meta = &bytes[start + m.meta.0..start + m.meta.0 + m.meta.1];
@@ -526,36 +526,51 @@ fn field(rng: &mut Rng, name: &str, dt: DataType) -> Field {
     Field::new(name, dt, true).with_metadata(gen_meta(rng))
 }
 
-fn tfield(rng: &mut Rng, name: &str, depth: usize) -> Field {
-    let t = gen_type(rng, depth);
+/// which part of the type space a round-trip case may use (`std` excludes the three
+/// configurations with confirmed defects, which have their own domains)
+#[derive(Clone, Copy)]
+struct Dom {
+    ree: bool,              // RunEndEncoded allowed at all (not with metadata V4 in `std`)
+    sliced_children: bool,  // below a List/LargeList/Map/FixedSizeList/Dictionary parent (children written from a sliced ArrayData)
+    ree_sliced: bool,       // RunEndEncoded allowed below such a parent
+    union_sliced: bool,     // Union allowed below such a parent
+}
+
+fn tfield(rng: &mut Rng, name: &str, depth: usize, dom: Dom) -> Field {
+    let t = gen_type(rng, depth, dom);
     field(rng, name, t)
 }
 
-fn gen_type(rng: &mut Rng, depth: usize) -> DataType {
+fn gen_type(rng: &mut Rng, depth: usize, dom: Dom) -> DataType {
     let leaves = leaf_types();
     if depth == 0 || rng.chance(2, 5) {
         return rng.pick(&leaves).clone();
     }
-    match rng.below(12) {
-        0 => DataType::List(Arc::new(tfield(rng, "item", depth - 1))),
-        1 => DataType::LargeList(Arc::new(tfield(rng, "element", depth - 1))),
-        2 => DataType::FixedSizeList(Arc::new(tfield(rng, "item", depth - 1)), rng.usize(4) as i32),
+    let below = Dom { sliced_children: true, ..dom };
+    let mut k = rng.below(12);
+    if (k == 7 && (!dom.ree || (dom.sliced_children && !dom.ree_sliced))) || ((k == 8 || k == 9) && dom.sliced_children && !dom.union_sliced) {
+        k = 3;
+    }
+    match k {
+        0 => DataType::List(Arc::new(tfield(rng, "item", depth - 1, below))),
+        1 => DataType::LargeList(Arc::new(tfield(rng, "element", depth - 1, below))),
+        2 => DataType::FixedSizeList(Arc::new(tfield(rng, "item", depth - 1, below)), rng.usize(4) as i32),
         3 => {
             let n = rng.usize(4);
-            DataType::Struct((0..n).map(|i| tfield(rng, &format!("f{i}"), depth - 1)).collect())
+            DataType::Struct((0..n).map(|i| tfield(rng, &format!("f{i}"), depth - 1, dom)).collect())
         }
         4 => {
             let kt = rng.pick(&[DataType::Utf8, DataType::Int32, DataType::LargeBinary]).clone();
             let entries = Field::new(
                 "entries",
-                DataType::Struct(vec![Field::new("key", kt, false), tfield(rng, "value", depth - 1)].into()),
+                DataType::Struct(vec![Field::new("key", kt, false), tfield(rng, "value", depth - 1, below)].into()),
                 false,
             );
             DataType::Map(Arc::new(entries), false)
         }
         5 | 6 => {
             let kt = rng.pick(&[DataType::Int8, DataType::Int16, DataType::Int32, DataType::Int64, DataType::UInt8, DataType::UInt16, DataType::UInt32, DataType::UInt64]).clone();
-            let mut vt = gen_type(rng, depth - 1);
+            let mut vt = gen_type(rng, depth - 1, below);
             while matches!(vt, DataType::Dictionary(_, _) | DataType::Null | DataType::RunEndEncoded(_, _) | DataType::Union(_, _)) {
                 vt = rng.pick(&leaves).clone();
             }
@@ -563,7 +578,7 @@ fn gen_type(rng: &mut Rng, depth: usize) -> DataType {
         }
         7 => {
             let rt = rng.pick(&[DataType::Int16, DataType::Int32, DataType::Int64]).clone();
-            let mut vt = gen_type(rng, depth - 1);
+            let mut vt = gen_type(rng, depth - 1, dom);
             while matches!(vt, DataType::RunEndEncoded(_, _)) {
                 vt = rng.pick(&leaves).clone();
             }
@@ -572,11 +587,11 @@ fn gen_type(rng: &mut Rng, depth: usize) -> DataType {
         8 | 9 => {
             let n = 1 + rng.usize(3);
             let ids: Vec<i8> = (0..n).map(|i| (i * 3 + 1) as i8).collect();
-            let fields: Vec<Field> = (0..n).map(|i| tfield(rng, &format!("u{i}"), depth - 1)).collect();
+            let fields: Vec<Field> = (0..n).map(|i| tfield(rng, &format!("u{i}"), depth - 1, dom)).collect();
             DataType::Union(UnionFields::try_new(ids, fields).unwrap(), if rng.bool() { UnionMode::Sparse } else { UnionMode::Dense })
         }
-        10 => DataType::ListView(Arc::new(tfield(rng, "item", depth - 1))),
-        _ => DataType::LargeListView(Arc::new(tfield(rng, "item", depth - 1))),
+        10 => DataType::ListView(Arc::new(tfield(rng, "item", depth - 1, dom))),
+        _ => DataType::LargeListView(Arc::new(tfield(rng, "item", depth - 1, dom))),
     }
 }
 
@@ -600,7 +615,7 @@ fn gen_strings(rng: &mut Rng, n: usize, long: bool) -> Vec<Vec<u8>> {
 
 fn gen_array(rng: &mut Rng, dt: &DataType, n: usize, ctx: &mut Ctx, path: &str) -> ArrayRef {
     if let Some(w) = prim_width(dt) {
-        let data = ArrayData::builder(dt.clone()).len(n).add_buffer(Buffer::from(rng.bytes(n * w))).nulls(gen_nulls(rng, n)).build().unwrap();
+        let data = ArrayData::builder(dt.clone()).len(n).add_buffer(Buffer::from(rng.bytes(n * w).as_slice())).nulls(gen_nulls(rng, n)).build().unwrap();
         return make_array(data);
     }
     match dt {
@@ -858,6 +873,21 @@ struct RtCase {
     evo: u8,
     proj: Option<Vec<usize>>,
     seed: u64,
+    dom: String,
+}
+
+fn has_type(dt: &DataType, pred: &dyn Fn(&DataType) -> bool) -> bool {
+    if pred(dt) {
+        return true;
+    }
+    match dt {
+        DataType::List(f) | DataType::LargeList(f) | DataType::FixedSizeList(f, _) | DataType::Map(f, _) | DataType::ListView(f) | DataType::LargeListView(f) => has_type(f.data_type(), pred),
+        DataType::Struct(fs) => fs.iter().any(|f| has_type(f.data_type(), pred)),
+        DataType::Union(fs, _) => fs.iter().any(|(_, f)| has_type(f.data_type(), pred)),
+        DataType::Dictionary(_, v) => has_type(v, pred),
+        DataType::RunEndEncoded(_, v) => has_type(v.data_type(), pred),
+        _ => false,
+    }
 }
 
 fn build_batches(c: &RtCase) -> (SchemaRef, Vec<RecordBatch>, String) {
@@ -865,7 +895,29 @@ fn build_batches(c: &RtCase) -> (SchemaRef, Vec<RecordBatch>, String) {
     let ncols = if rng.chance(1, 10) { 0 } else { 1 + rng.usize(4) };
     let depth = rng.usize(3);
     let mut tags = String::new();
-    let fields: Vec<Field> = (0..ncols).map(|i| tfield(&mut rng, &format!("c{i}"), depth)).collect();
+    let dom = Dom {
+        ree: c.ver == 5 || c.dom == "ree-v4",
+        sliced_children: false,
+        ree_sliced: c.dom == "ree-empty",
+        union_sliced: c.dom == "nested-union",
+    };
+    let mut fields: Vec<Field> = (0..ncols).map(|i| tfield(&mut rng, &format!("c{i}"), depth, dom)).collect();
+    // the special domains force the feature they are about into column 0
+    if c.dom != "std" {
+        let i32f = |n: &str| Arc::new(Field::new(n, DataType::Int32, true));
+        let ree = DataType::RunEndEncoded(Arc::new(Field::new("run_ends", DataType::Int32, false)), i32f("values"));
+        let un = DataType::Union(UnionFields::try_new(vec![0, 1], vec![Field::new("a", DataType::Int32, true), Field::new("b", DataType::Utf8, true)]).unwrap(), if rng.bool() { UnionMode::Sparse } else { UnionMode::Dense });
+        let t = match c.dom.as_str() {
+            "ree-v4" | "ree-empty" => ree,
+            _ => if rng.bool() { DataType::List(Arc::new(Field::new("item", un, true))) } else { DataType::FixedSizeList(Arc::new(Field::new("item", un, true)), 2) },
+        };
+        if fields.is_empty() {
+            fields.push(Field::new("c0", t, true));
+        } else {
+            fields[0] = Field::new("c0", t, true);
+        }
+    }
+    let ncols = fields.len();
     for f in &fields {
         let s = f.data_type().to_string();
         let head: String = s.chars().take_while(|c| c.is_alphanumeric()).collect();
@@ -886,7 +938,15 @@ fn build_batches(c: &RtCase) -> (SchemaRef, Vec<RecordBatch>, String) {
         }
         let mut cols = vec![];
         for (i, f) in schema.fields().iter().enumerate() {
-            let (pre, post) = if rng.chance(1, 2) { (rng.usize(10), rng.usize(4)) } else { (0, 0) };
+            let (mut pre, mut post) = if rng.chance(1, 2) { (rng.usize(10), rng.usize(4)) } else { (0, 0) };
+            // a zero-length slice at a non-zero offset of a run-end array is the `ree-empty` domain
+            if rows == 0 && c.dom != "ree-empty" && has_type(f.data_type(), &|t| matches!(t, DataType::RunEndEncoded(_, _))) {
+                pre = 0;
+                post = 0;
+            }
+            if c.dom == "ree-empty" && i == 0 && rows == 0 {
+                pre = 1 + rng.usize(5);
+            }
             let a = gen_array(&mut rng, f.data_type(), pre + rows + post, &mut ctx, &format!("c{i}"));
             cols.push(if pre + post > 0 {
                 if pre % 8 != 0 {
@@ -930,6 +990,7 @@ fn run_rt(t: &[&str]) -> (String, Option<String>, String) {
         evo: t[9].parse().unwrap(),
         proj: if t[10] == "-" { None } else { Some(parse_list::<usize>(t[10])) },
         seed: t[11].parse().unwrap(),
+        dom: t[12].into(),
     };
     let (schema, batches, mut tags) = build_batches(&c);
     let o = match rt_options(&c) {
@@ -1044,6 +1105,58 @@ fn run_rt(t: &[&str]) -> (String, Option<String>, String) {
     ("ok".into(), None, tags)
 }
 
+/// minimal hand-written round trips for the configurations with confirmed defects
+fn run_probe(name: &str) -> String {
+    let i32f = |n: &str| Arc::new(Field::new(n, DataType::Int32, true));
+    let (col, ver): (ArrayRef, u8) = match name {
+        "ree-v4" | "ree-v5" => {
+            let a = RunArray::<Int32Type>::try_new(&Int32Array::from(vec![2, 3]), &Int32Array::from(vec![7, 8])).unwrap();
+            (Arc::new(a), if name == "ree-v4" { 4 } else { 5 })
+        }
+        "ree-empty-slice" => {
+            let a = RunArray::<Int32Type>::try_new(&Int32Array::from(vec![2, 4]), &Int32Array::from(vec![7, 8])).unwrap();
+            (Arc::new(a.slice(2, 0)), 5)
+        }
+        "union-in-sliced-list-sparse" | "union-in-sliced-list-dense" | "union-in-list-unsliced" => {
+            let fields = UnionFields::try_new(vec![0, 1], vec![Field::new("a", DataType::Int32, true), Field::new("b", DataType::Int32, true)]).unwrap();
+            let tids: Vec<i8> = vec![0, 1, 0, 1, 1, 0];
+            let u = if name.ends_with("dense") {
+                UnionArray::try_new(fields.clone(), tids.into(), Some(vec![0, 0, 1, 1, 2, 2].into()), vec![Arc::new(Int32Array::from(vec![10, 11, 12])), Arc::new(Int32Array::from(vec![20, 21, 22]))]).unwrap()
+            } else {
+                UnionArray::try_new(fields.clone(), tids.into(), None, vec![Arc::new(Int32Array::from(vec![10, 11, 12, 13, 14, 15])), Arc::new(Int32Array::from(vec![20, 21, 22, 23, 24, 25]))]).unwrap()
+            };
+            let f = Arc::new(Field::new("item", u.data_type().clone(), true));
+            let l = ListArray::try_new(f, OffsetBuffer::new(vec![0, 2, 4, 6].into()), Arc::new(u), None).unwrap();
+            (if name.ends_with("unsliced") { Arc::new(l) } else { Arc::new(l.slice(1, 2)) }, 5)
+        }
+        _ => return "bad-op".into(),
+    };
+    let _ = i32f;
+    let schema = Arc::new(Schema::new(vec![Field::new("c", col.data_type().clone(), true)]));
+    let batch = RecordBatch::try_new(schema.clone(), vec![col]).unwrap();
+    let mut w = StreamWriter::try_new_with_options(Vec::new(), &schema, opts(8, false, ver)).unwrap();
+    if let Err(e) = w.write(&batch) {
+        return format!("WRITE-{}", err_class(&e));
+    }
+    w.finish().unwrap();
+    let bytes = w.into_inner().unwrap();
+    let r = match StreamReader::try_new(Cursor::new(bytes), None) {
+        Ok(r) => r,
+        Err(e) => return format!("READ-{}", err_class(&e)),
+    };
+    let got: Result<Vec<RecordBatch>, ArrowError> = r.collect();
+    match got {
+        Err(e) => format!("READ-{}", err_class(&e)),
+        Ok(g) => match compare_batches(&[batch], &g) {
+            None => "ok".into(),
+            Some(why) => {
+                let rows = g.first().map(|b| fmt_rows(b.column(0).as_ref()).map(|v| v.join("|")).unwrap_or("?".into())).unwrap_or_default();
+                format!("MISMATCH({}):got={}", why.replace(' ', "_"), rows.replace(' ', ""))
+            }
+        },
+    }
+}
+
 // ------------------------------------------------------------------------------------ dispatch
 
 fn run_case(line: &str) -> (String, Option<String>, String) {
@@ -1075,6 +1188,11 @@ fn run_case(line: &str) -> (String, Option<String>, String) {
             (a, o, String::new())
         }
         "dict" => (guarded(|| run_dict(&t)), None, String::new()),
+        "probe" => {
+            let a = guarded(|| run_probe(t[2]));
+            let o = if a == "ok" { None } else { Some(format!("probe {}: {}", t[2], a)) };
+            (a, o, format!("kf:{}", t[2]))
+        }
         "rt" => {
             let mut o = None;
             let mut tags = String::new();
@@ -1248,7 +1366,14 @@ fn gen_case(rng: &mut Rng) -> (String, String) {
                 format!("op:bits:{} wrap:{} aligned:{} {}", kind, var, off % 8 == 0, if len > 0 && off % 8 != 0 { "nt" } else { "" }),
             )
         }
-        6 => (format!("C04 allvalid {}", rng.usize(70)), "op:allvalid".into()),
+        6 => {
+            if rng.chance(1, 4) {
+                let name = *rng.pick(&["ree-v4", "ree-v5", "ree-empty-slice", "union-in-sliced-list-sparse", "union-in-sliced-list-dense", "union-in-list-unsliced"]);
+                (format!("C04 probe {}", name), "op:probe".into())
+            } else {
+                (format!("C04 allvalid {}", rng.usize(70)), "op:allvalid".into())
+            }
+        }
         7 | 8 => {
             let align = *rng.pick(&aligns);
             let legacy = rng.chance(1, 3);
@@ -1310,19 +1435,18 @@ fn gen_case(rng: &mut Rng) -> (String, String) {
         _ => {
             let writer = *rng.pick(&["file", "stream", "enc"]);
             let reader = if writer == "file" { "file" } else { *rng.pick(&["stream", "decoder"]) };
-            let ver = if rng.chance(1, 4) { 4 } else { 5 };
+            let dom = if rng.chance(1, 12) { *rng.pick(&["ree-v4", "ree-empty", "nested-union"]) } else { "std" };
+            let ver = if dom == "ree-v4" || (dom == "std" && rng.chance(1, 4)) { 4 } else { 5 };
             let legacy = ver == 4 && rng.bool();
             let codec = if ver == 5 { *rng.pick(&["none", "none", "lz4", "zstd"]) } else { "none" };
             let delta = rng.bool();
             let evo = if writer == "file" { *rng.pick(&[0u8, 0, 1, 2, 2, 3, 4]) } else { rng.usize(5) as u8 };
             let seed = rng.next_u64() >> 16;
             // projection indices are chosen against the schema the seed generates
-            let probe = RtCase { writer: writer.into(), reader: reader.into(), align: 8, ver, legacy, codec: codec.into(), delta, evo, proj: None, seed };
             let ncols = {
                 let mut r = Rng::new(seed ^ 0xC04_0BA7);
                 if r.chance(1, 10) { 0 } else { 1 + r.usize(4) }
             };
-            let _ = probe;
             let proj = if reader != "decoder" && ncols > 0 && rng.chance(1, 3) {
                 let mut p: Vec<usize> = (0..ncols).filter(|_| rng.bool()).collect();
                 if rng.chance(1, 4) {
@@ -1334,8 +1458,8 @@ fn gen_case(rng: &mut Rng) -> (String, String) {
             };
             let align = *rng.pick(&aligns);
             (
-                format!("C04 rt {} {} {} {} {} {} {} {} {} {}", writer, reader, align, ver, if legacy { 1 } else { 0 }, codec, if delta { "delta" } else { "resend" }, evo, proj, seed),
-                format!("op:rt w:{} r:{} align:{} v{} legacy:{} codec:{} dict:{} evo:{} proj:{} nt", writer, reader, align, ver, legacy, codec, if delta { "delta" } else { "resend" }, evo, proj != "-"),
+                format!("C04 rt {} {} {} {} {} {} {} {} {} {} {}", writer, reader, align, ver, if legacy { 1 } else { 0 }, codec, if delta { "delta" } else { "resend" }, evo, proj, seed, dom),
+                format!("op:rt dom:{dom} w:{} r:{} align:{} v{} legacy:{} codec:{} dict:{} evo:{} proj:{} nt", writer, reader, align, ver, legacy, codec, if delta { "delta" } else { "resend" }, evo, proj != "-"),
             )
         }
     }
